@@ -479,6 +479,12 @@ func (api *API) decodeMap(ctx context.Context, b []byte, value reflect.Value,
 			return 0, ierrors.WithStack(err)
 		}
 
+		// an interface key can hold a value of a type that can not be hashed (which of the registered types it is, is
+		// decided by the input): looking it up would panic
+		if !keyValue.Comparable() {
+			return 0, ierrors.Errorf("map key of type %s holds a value that can not be used as a map key", keyValue.Type())
+		}
+
 		if value.MapIndex(keyValue).IsValid() {
 			// map entry already exists
 			return 0, ierrors.Wrapf(ErrMapValidationViolatesUniqueness, "map entry with key %v already exists", keyValue.Interface())
